@@ -71,6 +71,9 @@ def g_rgba2(lon, lat):
     c = 255 - g_rgb(lon, lat)
     a = np.full(c.shape[:2] + (1,), 255, np.uint8)
     out = np.concatenate([c, a], axis=-1)
+    # defined but faint pixels (alpha 128, 1) must replace more opaque earlier data like any defined pixel
+    out[np.cos(4 * lon) > 0.8, 3] = 128
+    out[np.cos(4 * lon) < -0.9, 3] = 1
     out[np.sin(5 * lon) * np.cos(3 * lat) > 0.3] = 0
     return out
 
